@@ -312,7 +312,7 @@ def check(rep, ctx):
             continue
         done.add(key)
         qv, issues = timeflow.read_side(c2, 64, "timestamp")
-        issues = [i for i in issues if i[0] in ("T-gran", "T-trunc")]
+        issues = [i for i in issues if i[0] in ("T-gran", "T-trunc", "T-epoch")]
         site = next((n for n in ()), None)
         rep.check(R_G, qv is not None and not issues, construct=rfn.ref, stmt=key,
                   message="; ".join(f"{r}: {m}" for r, m, _ in issues) or "conversion not understood", file=file, line=rfn.node.lineno)
